@@ -132,6 +132,9 @@ func absPathOf(f *fnInfo, info *types.Info, e ast.Expr) (*absRoot, string) {
 			}
 		}
 	case *ast.SelectorExpr:
+		if lv, k := f.leafKind(info, x); k == leafAbs {
+			return f.fieldRoots[lv], "" // an interface-typed leaf of the receiver (ext4.go)
+		}
 		if r, p := absPathOf(f, info, x.X); r != nil {
 			if fv, ok := info.Uses[x.Sel].(*types.Var); ok && fv.IsField() {
 				return r, joinPath(p, x.Sel.Name)
@@ -174,6 +177,9 @@ func (c *fctx) absArgs(f *fnInfo) []string {
 
 // St -> args -> res (St * results)
 func (c *fctx) methodType(r *absRoot, m *absMethod) string {
+	if r == c.f.allocRoot && r != nil {
+		return allocMethodType(r, m.path)
+	}
 	sig := m.fn.Type().(*types.Signature)
 	if sig.Variadic() {
 		c.failf(c.f.decl, "variadic method %s of an abstract object", m.path)
@@ -226,6 +232,13 @@ func (c *fctx) callAbstract(x *ast.CallExpr, root *absRoot, path string, fn *typ
 			continue
 		}
 		if methodStoresInto(m.fn, i) {
+			if pp, arg, pat, po, ok := c.csMutArg(a); ok {
+				pre = append(pre, pp...)
+				args = append(args, arg)
+				mpats = append(mpats, pat)
+				post = append(post, po...)
+				continue
+			}
 			pp, arg, pat, po := c.mutSliceArg(a)
 			pre = append(pre, pp...)
 			args = append(args, arg)
@@ -271,6 +284,9 @@ func (c *fctx) varCoqType(n ast.Node, v *cvar) string {
 	if v.isnil {
 		return "bool"
 	}
+	if t, ok := c.csVarType(v); ok {
+		return t
+	}
 	if v.field != nil {
 		return c.coqType(n, v.field.Type())
 	}
@@ -309,11 +325,23 @@ func (c *fctx) fieldVar(x *ast.SelectorExpr) (string, bool) {
 	if !ok || !fv.IsField() {
 		return "", false
 	}
+	if c.f.cs && o == c.f.recvStruct {
+		// a leaf of the receiver (ext4.go); a nested struct as a whole is not a variable
+		if lv := c.f.leafByPath([]string{fv.Name()}); lv != nil {
+			return c.fieldName(o, lv), true
+		}
+		return "", false
+	}
 	c.coqType(x, fv.Type())
 	return c.fieldName(o, fv), true
 }
 
 func (c *fctx) fieldName(o *types.Var, fv *types.Var) string {
+	if c.f.cs && o == c.f.recvStruct {
+		if r := c.f.fieldRoots[fv]; r != nil {
+			return c.nameOf(r.v) // an interface-typed leaf: the state of that abstract object
+		}
+	}
 	n := c.nameOf(o) + "_" + fv.Name()
 	if _, ok := c.vars[n]; !ok {
 		if c.used[n] {
@@ -674,15 +702,39 @@ func (c *fctx) callTranslated(x *ast.CallExpr, callee *fnInfo) (pre []string, te
 		c.failf(x, "call of %s, a method of a generic type", callee.obj.FullName())
 	}
 	sameRecv := c.sameRecvCall(x, callee)
-	if callee.recvStruct != nil && !sameRecv {
+	subPath, subRecv := c.subRecvCall(x, callee)
+	if callee.recvStruct != nil && !sameRecv && !subRecv {
 		c.failf(x, "call of %s, a method of a pointer to a struct with fields (only p.M(...) for the caller's own receiver p is translated)", callee.obj.FullName())
 	}
 	c.checkNoAliasArgs(x, callee)
 	var head []string
+	segs := map[*absRoot][]string{} // per abstract object of the callee: its state type and method models
 	var args []string
 	var pats []string
 	var post []string
 	var recvArgs []string
+	if subRecv {
+		// p.f.M(...) for a translated method of the nested struct f (ext4.go): &p.f is never nil
+		// (p itself is dereferenced), the callee gets the leaves below f and gives them back
+		c.noteMut(x)
+		pre = append(pre, fmt.Sprintf("do _ <- gptr_check %s;", c.readVar(c.isnilName())))
+		recvArgs = append(recvArgs, "false")
+		for _, fv := range callee.recvFields {
+			n := c.fieldName(c.f.recvStruct, c.subRecvLeaf(subPath, fv))
+			recvArgs = append(recvArgs, c.readVar(n))
+			pats = append(pats, c.assignVar(n))
+		}
+	}
+	if sameRecv {
+		// the callee's abstract objects that are leaves of the common receiver (ext4.go)
+		for lv, r := range callee.fieldRoots {
+			mine := c.f.fieldRoots[lv]
+			segs[r] = append(segs[r], mine.stName())
+			for _, m := range r.methods {
+				segs[r] = append(segs[r], mine.mName(m.path))
+			}
+		}
+	}
 	if sameRecv {
 		// p.M(...) for the caller's own pointer receiver p: the callee gets the nil flag and the
 		// current fields, its final fields are the caller's afterwards (a method call through a nil
@@ -703,13 +755,13 @@ func (c *fctx) callTranslated(x *ast.CallExpr, callee *fnInfo) (pre []string, te
 				if !callee.nilable[calleeRoot.v] {
 					c.failf(e, "nil handed to the abstract object %s of %s, which is never compared with nil", calleeRoot.v.Name(), callee.obj.Name())
 				}
-				head = append(head, "unit")
+				segs[calleeRoot] = append(segs[calleeRoot], "unit")
 				for _, m := range calleeRoot.methods {
 					n := 1 + m.fn.Type().(*types.Signature).Params().Len()
-					head = append(head, "(fun "+strings.TrimSpace(strings.Repeat("_ ", n))+" => Panic 5)")
+					segs[calleeRoot] = append(segs[calleeRoot], "(fun "+strings.TrimSpace(strings.Repeat("_ ", n))+" => Panic 5)")
 				}
 				if calleeRoot.poke {
-					head = append(head, "(fun _ _ _ => Panic 5)")
+					segs[calleeRoot] = append(segs[calleeRoot], "(fun _ _ _ => Panic 5)")
 				}
 				pats = append(pats, "_")
 				return []string{"true", "tt"}
@@ -726,7 +778,7 @@ func (c *fctx) callTranslated(x *ast.CallExpr, callee *fnInfo) (pre []string, te
 			}
 			flag = []string{c.readVar(c.absNilName(root.v))}
 		}
-		head = append(head, root.stName())
+		segs[calleeRoot] = append(segs[calleeRoot], root.stName())
 		for _, m := range calleeRoot.methods {
 			full := joinPath(path, m.path)
 			found := false
@@ -738,13 +790,13 @@ func (c *fctx) callTranslated(x *ast.CallExpr, callee *fnInfo) (pre []string, te
 			if !found {
 				c.failf(e, "internal: method %s of %s not recorded", full, root.v.Name())
 			}
-			head = append(head, root.mName(full))
+			segs[calleeRoot] = append(segs[calleeRoot], root.mName(full))
 		}
 		if calleeRoot.poke {
 			if !root.poke || path != "" {
 				c.failf(e, "internal: the poke operation of %s is not a parameter", root.v.Name())
 			}
-			head = append(head, root.pokeName())
+			segs[calleeRoot] = append(segs[calleeRoot], root.pokeName())
 		}
 		c.noteMut(x)
 		st := c.nameOf(root.v)
@@ -791,6 +843,24 @@ func (c *fctx) callTranslated(x *ast.CallExpr, callee *fnInfo) (pre []string, te
 		pp, t := c.exprAs(a, p.Type())
 		pre = append(pre, pp...)
 		pargs = append(pargs, t)
+	}
+	if callee.allocRoot != nil {
+		// the allocator (ext4.go): the callee's trailing parameter is the caller's allocator
+		mine := c.f.allocRoot
+		if mine == nil {
+			c.failf(x, "internal: %s allocates but the caller has no allocator object", callee.obj.Name())
+		}
+		segs[callee.allocRoot] = append(segs[callee.allocRoot], mine.stName())
+		for _, m := range callee.allocRoot.methods {
+			segs[callee.allocRoot] = append(segs[callee.allocRoot], mine.mName(m.path))
+		}
+		c.noteMut(x)
+		st := c.nameOf(mine.v)
+		pargs = append(pargs, c.readVar(st))
+		pats = append(pats, c.assignVar(st))
+	}
+	for _, r := range callee.abs {
+		head = append(head, segs[r]...)
 	}
 	name := callee.coqName
 	if self {
@@ -967,6 +1037,7 @@ func (c *fctx) carriedOfNodes(fr *loopFrame, nodes []ast.Node) []string {
 		case *ast.IncDecStmt:
 			add(x.X)
 		case *ast.CallExpr:
+			c.csCarriedCall(x, add, set)
 			if len(x.Args) == 2 && c.isRegionExpr(x.Args[0]) {
 				if fn := c.calleeFunc(x); fn != nil && putLib[fn.FullName()] != 0 {
 					if _, _, r := c.regionExprQuiet(x.Args[0]); r != nil {
@@ -1275,7 +1346,7 @@ func (t *tr) analyseExt(f *fnInfo, seen map[*fnInfo]bool) {
 	f.dirtOwned = map[*types.Var]bool{}
 	defer t.analyseRegions(f)
 	f.nErrCtor, f.errCtorIx = map[string]int{}, map[ast.Node]int{}
-	if recv := sig.Recv(); recv != nil {
+	if recv := sig.Recv(); recv != nil && !t.analyseCSReceiver(f, recv) {
 		rt := recv.Type()
 		if e, isPtr := ptrElem(rt); isPtr {
 			rt = e // a pointer receiver is assumed non-nil
@@ -1318,6 +1389,9 @@ func (t *tr) analyseExt(f *fnInfo, seen map[*fnInfo]bool) {
 		return true
 	})
 	for i, p := range f.params {
+		if (f.allocRoot != nil && p == f.allocRoot.v) || f.movedTo[p] != nil {
+			continue // the allocator (ext4.go); an interface value that is stored into a field
+		}
 		switch {
 		case !used[p] && (!translatableParam(p.Type()) || isAbstractType(p.Type())):
 			f.dropped[i] = true
@@ -1365,7 +1439,7 @@ func (t *tr) analyseExt(f *fnInfo, seen map[*fnInfo]bool) {
 						}
 						// x := dirtmake.Bytes(n, n): a fresh buffer of arbitrary content; it may also be handed
 						// (whole or as x[a:]) to callees and methods that store into it, and be returned
-						if fn := calleeOf(info, call); fn != nil && dirtFns[fn.FullName()] {
+						if fn := calleeOf(info, call); fn != nil && dirtFns[fn.FullName()] && !f.cs {
 							if v, ok := info.Defs[id].(*types.Var); ok && isByteSlice(v.Type()) {
 								cand[v] = true
 								f.dirtOwned[v] = true
@@ -1413,7 +1487,7 @@ func (t *tr) analyseExt(f *fnInfo, seen map[*fnInfo]bool) {
 						}
 					}
 				}
-				if _, isExt := externalFns[o.Origin().FullName()]; isExt && t.byObj[o.Origin()] == nil {
+				if _, isExt := externalFns[o.Origin().FullName()]; isExt && t.byObj[o.Origin()] == nil && !(f.cs && allocName(o) != "") {
 					f.addExtern(o.Origin())
 				}
 				// a method of an abstract object that is not itself translated
